@@ -962,3 +962,12 @@ impl EliasFanoConcurrentBuilder {
         }
     }
 }
+
+// Accessors for verification harnesses (compiled only with --cfg sux_verif)
+#[cfg(sux_verif)]
+impl<H, L> EliasFano<H, L> {
+    /// Returns (n, u, l, low bits, high bits).
+    pub fn verif_parts(&self) -> (usize, usize, usize, &L, &H) {
+        (self.n, self.u, self.l, &self.low_bits, &self.high_bits)
+    }
+}
